@@ -115,6 +115,124 @@ def shadow_transform(code):
     return SHADOW + code
 
 
+# A second hostile scope: traits named like the std ones, WITH methods / associated functions of the same names and
+# blanket impls.  Generated code that says `x.clone()` or `<T>::default()` instead of going through `::core::..::Trait`
+# becomes ambiguous (or silently calls these).
+SHADOW2 = """
+#[allow(unused_imports)] use self::shadowed2::*;
+pub mod shadowed2 {
+    pub trait Clone { fn clone(&self) -> u8 { 0 } fn clone_from(&mut self, _s: &Self) {} }
+    impl<T: ?::core::marker::Sized> Clone for T {}
+    pub trait Default { fn default() -> u8 { 0 } }
+    impl<T: ?::core::marker::Sized> Default for T {}
+    pub trait PartialEq { fn eq(&self, _o: &Self) -> u8 { 0 } fn ne(&self, _o: &Self) -> u8 { 0 } }
+    impl<T: ?::core::marker::Sized> PartialEq for T {}
+    pub trait PartialOrd { fn partial_cmp(&self, _o: &Self) -> u8 { 0 } fn lt(&self, _o: &Self) -> u8 { 0 } }
+    impl<T: ?::core::marker::Sized> PartialOrd for T {}
+    pub trait Ord { fn cmp(&self, _o: &Self) -> u8 { 0 } }
+    impl<T: ?::core::marker::Sized> Ord for T {}
+    pub trait Hash { fn hash(&self, _s: &mut u8) {} }
+    impl<T: ?::core::marker::Sized> Hash for T {}
+    pub trait Debug { fn fmt(&self, _f: &mut u8) -> u8 { 0 } }
+    impl<T: ?::core::marker::Sized> Debug for T {}
+    pub trait Into { fn into(&self) -> u8 { 0 } }
+    impl<T: ?::core::marker::Sized> Into for T {}
+    pub trait Add { fn add(&self, _o: &Self) -> u8 { 0 } fn add_assign(&mut self, _o: &Self) {} fn sub(&self, _o: &Self) -> u8 { 0 } }
+    impl<T: ?::core::marker::Sized> Add for T {}
+    pub trait Neg { fn neg(&self) -> u8 { 0 } fn not(&self) -> u8 { 0 } }
+    impl<T: ?::core::marker::Sized> Neg for T {}
+    pub trait Deref { fn deref(&self) -> u8 { 0 } fn deref_mut(&mut self) -> u8 { 0 } }
+    impl<T: ?::core::marker::Sized> Deref for T {}
+}
+"""
+
+
+def attr_end(code, i):
+    """Index just after the attribute `#[..]` that starts at i (bracket matching, string literals skipped)."""
+    n, depth, instr = len(code), 0, False
+    k = code.index("[", i)
+    while k < n:
+        ch = code[k]
+        if instr:
+            if ch == "\\":
+                k += 1
+            elif ch == '"':
+                instr = False
+        elif ch == '"':
+            instr = True
+        elif ch in "[({":
+            depth += 1
+        elif ch in "])}":
+            depth -= 1
+            if depth == 0:
+                return k + 1
+        k += 1
+    return n
+
+
+def macro_forward(code, attrs_in_body=True):
+    """Every item that carries derive_ex is passed through a trivial macro_rules! macro.  attrs_in_body: the item's outer
+    attributes (derive_ex among them) are written in the macro's body and only the item itself is an argument - the usual
+    way a macro generates derived types; otherwise (the control) attributes and item are all arguments.  Returns None if
+    the program has no such item or the attributes contain `$`."""
+    lines = code.split("\n")
+    starts = [0]
+    for l in lines:
+        starts.append(starts[-1] + len(l) + 1)
+    out, pos, n = [], 0, 0
+    for (a, b) in dx_item_ranges(code):
+        # the item group begins with the first of the consecutive attribute lines above the derive_ex attribute
+        while a > 1 and lines[a - 2].lstrip().startswith("#[") and lines[a - 2].rstrip().endswith("]"):
+            a -= 1
+        s0 = starts[a - 1]
+        e0 = starts[b] - 1 if b < len(starts) else len(code)
+        if s0 < pos:
+            continue
+        # split leading attributes from the item
+        i = s0
+        while True:
+            j = i
+            while j < len(code) and code[j] in " \t\n":
+                j += 1
+            if code.startswith("#", j) and code[j + 1:j + 2] in "[ ":
+                i = attr_end(code, j)
+            else:
+                break
+        attrs, item = code[s0:i], code[i:e0]
+        if "$" in attrs or not item.strip():
+            return None
+        n += 1
+        out.append(code[pos:s0])
+        if attrs_in_body:
+            out.append(f"macro_rules! __fw{n} {{ ($($__tt:tt)*) => {{ {attrs} $($__tt)* }} }}\n__fw{n}! {{ {item} }}")
+        else:
+            out.append(f"macro_rules! __fw{n} {{ ($($__tt:tt)*) => {{ $($__tt)* }} }}\n__fw{n}! {{ {attrs} {item} }}")
+        pos = e0
+    if not n:
+        return None
+    out.append(code[pos:])
+    return "".join(out)
+
+
+def judge_scope(base, trans, control=None):
+    """For the transforms that rename nothing (second shadow scope, macro forwarding)."""
+    if base.status != "ok" or trans.status == "inconclusive":
+        return ("skip", "")
+    if control is not None and control.status != "ok":
+        return ("harness", "the control of the transform does not compile")
+    if trans.status == "compile_fail":
+        who, d = C.blame(trans)
+        outside = [x for x in trans.diags if x["level"] == "error" and not x["in_derive_ex"] and x["code"] is not None]
+        if control is None and (outside or who == "harness"):
+            return ("harness", f"{d['code']}: {str(d['message'])[:120]}")
+        return ("compiles-differently", f"{d['code']}: {(d['message'] or '')[:160]}")
+    ev_b = json.dumps([{k: v for k, v in e.items() if k != "c"} for e in base.events], sort_keys=True)
+    ev_t = json.dumps([{k: v for k, v in e.items() if k != "c"} for e in trans.events], sort_keys=True)
+    if ev_b != ev_t:
+        return ("computes-differently", "event logs differ")
+    return None
+
+
 NO_STD_ITEMS = [
     ("Copy, Clone, Debug, Default, Ord, PartialOrd, Eq, PartialEq, Hash", "pub struct Ty { f0: u8, f1: (u8, i8), f2: ::core::option::Option<u8> }"),
     ("Copy, Clone, Debug, Default, Ord, PartialOrd, Eq, PartialEq, Hash", "pub enum Ty<T> { #[default] V0, V1(T), V2 { f0: [u8; 3], f1: &'static str } }"),
@@ -237,7 +355,7 @@ def judge_pair(base, trans, mapping, control=None):
             # all inside those items (the renamed item by itself is fine).
             ranges = dx_item_ranges(trans.code)
             inside = lambda x: x.get("rel") is not None and any(a <= x["rel"] <= b for a, b in ranges)
-            if SHADOW in trans.code or not all(x["code"] in TRAIT_CODES and inside(x) for x in outside):
+            if SHADOW in trans.code or SHADOW2 in trans.code or not all(x["code"] in TRAIT_CODES and inside(x) for x in outside):
                 return ("harness", f"{d['code']}: {str(d['message'])[:120]}")
             if control is None:
                 return ("need-control", "")
@@ -351,6 +469,18 @@ def run(rep, tier, rng):
         plan.append((cb, trs, b))
     cases += sweep
     rep.count("sweep_pairs", len(sweep))
+    # two transforms that rename nothing, on every base program: the second hostile scope, and macro forwarding
+    extra = []
+    for cb, trs, b in plan:
+        k = cb.name
+        s2 = C.Case(f"x2{k}", SHADOW2 + cb.code, {"base": cb.meta["base"], "kind": "shadow2"})
+        extra.append((cb, s2, None, b))
+        m1, m2 = macro_forward(cb.code, True), macro_forward(cb.code, False)
+        if m1 and m2:
+            c1 = C.Case(f"xm{k}", m1, {"base": cb.meta["base"], "kind": "macrofwd"})
+            c2 = C.Case(f"xk{k}", m2, {"base": cb.meta["base"], "kind": "macrofwd-control"})
+            extra.append((cb, c1, c2, b))
+    cases += [x for _, t, c, _ in extra for x in (t, c) if x is not None]
     _, notes = C.run_cases(cases, "c13", header=HEADER, batch_size=40)
     for n in notes:
         rep.inconcl(n)
@@ -415,6 +545,32 @@ def run(rep, tier, rng):
         reported[sig] = True
         rep.violation(sig, f"{r2[0]} under {what_t}: {r2[1]} [{bases[cb.meta['base']]['src']} program deriving {traits}]",
                       {"base_code": cb.code, "mapping": best, "kind": "rename+shadow" if best_shadow else "rename"})
+    # ---- the transforms that rename nothing ----
+    xs = {}
+    for cb, ct, ck, b in extra:
+        r = judge_scope(cb, ct, ck)
+        if r and r[0] in ("skip",):
+            continue
+        if r and r[0] == "harness":
+            rep.count("transform_broke_the_harness_itself")
+            continue
+        rep.evaluations += 1
+        rep.count("pairs_" + ct.meta["kind"])
+        rep.nontrivial.add((b["src"], ct.meta["kind"], ""))
+        if r:
+            xs.setdefault((ct.meta["kind"], r[0], r[1].split(":")[0]), []).append((cb, ct, ck, b, r))
+    for (kind, sym, code_), lst in list(xs.items())[:12]:
+        cb, ct, ck, b, r = lst[0]
+        again = C.compile_single(ct.code, header=HEADER)
+        ck2 = C.compile_single(ck.code, header=HEADER) if ck is not None else None
+        r2 = judge_scope(cb, again, ck2)
+        if not r2 or r2[0] != sym:
+            rep.inconcl(f"did not reproduce in isolation: {kind} {sym}")
+            continue
+        traits = "+".join(sorted(set(b["traits"])))[:60]
+        what_t = {"shadow2": "scope with same-named traits that have methods", "macrofwd": "item passed through a macro_rules! macro"}[kind]
+        rep.violation(f"C13|{sym}|{kind}|{code_}", f"{sym} under {what_t}: {r2[1]} [{b['src']} program deriving {traits}; {len(lst)} programs]",
+                      {"base_code": cb.code, "mapping": {}, "kind": kind})
     # ---- #![no_std]: metadata-only ----
     ns_cases, sd_cases = [], []
     for i, (tl, item) in enumerate(NO_STD_ITEMS):
@@ -470,6 +626,15 @@ def replay(rep, path):
         bad = c.status != "ok"
     else:
         cb = C.compile_single(j["base_code"], header=HEADER)
+        if j["kind"] in ("shadow2", "macrofwd"):
+            ct = C.compile_single(SHADOW2 + j["base_code"] if j["kind"] == "shadow2" else macro_forward(j["base_code"], True), header=HEADER)
+            ck = C.compile_single(macro_forward(j["base_code"], False), header=HEADER) if j["kind"] == "macrofwd" else None
+            r = judge_scope(cb, ct, ck)
+            if r and r[0] not in ("harness", "skip"):
+                print(f"VIOLATION property=C13 replay={path}")
+                return 1
+            print("replay: no violation")
+            return 0
         code = apply_map(j["base_code"], j["mapping"])
         if "shadow" in j["kind"]:
             code = shadow_transform(code)
